@@ -469,6 +469,11 @@ def run(rep, tier):
     rep.floor = 5000
 
 
+def san_shards(tier):
+    """the cross-thread dispatch and start-up override workloads under ThreadSanitizer"""
+    return [("tsan", [("xthread", 300 + i, 12, "tsan") for i in range(8)] + [("racereg", 300 + i, 5, "tsan") for i in range(4)])]
+
+
 def replay(path):
     d = json.load(open(path))
     run = common.run_vexec(d["replay"]["steps"], common.workdir(PROP, "replay"), "replay", "verifdbg")
